@@ -243,6 +243,14 @@ fn i8_one<A: I8Arith>(name: &str, a: &mut A, case: &I8Case, p: &mut Probe) -> Ch
     }
     let mut vars = vars0.clone();
     let mut chk: Vec<SentMessage<i8>> = olds.iter().enumerate().map(|(i, &v)| SentMessage { dest: 2 * i + 1, value: v }).collect();
+    if case.msgs.len() >= 3 {
+        // an unrelated (usually larger) row processed earlier by the same arithmetic object:
+        // scratch state must not leak into the next update
+        let w = case.msgs.len().min(40);
+        let mut wv: Vec<i16> = case.msgs[..w].iter().map(|&x| x as i16).collect();
+        let mut wc: Vec<SentMessage<i8>> = (0..w).map(|i| SentMessage { dest: i, value: 0 }).collect();
+        let _ = guarded(|| a.update_check_messages_and_vars(&mut wc, &mut wv));
+    }
     guarded(|| a.update_check_messages_and_vars(&mut chk, &mut vars)).map_err(|e| Fail::new("layered-panic", format!("{name}: update_check_messages_and_vars panicked (overflow?): {e}; olds {olds:?} vars {vars0:?}")))?;
     let ext: Vec<i64> = (0..d).map(|i| vars0[2 * i + 1] as i64 - olds[i] as i64).collect();
     if ext.iter().any(|e| e.abs() > 127) {
@@ -402,6 +410,13 @@ fn f_one<F: Fl, A: FArith<F>>(name: &str, a: &mut A, case: &FCase, p: &mut Probe
     }
     let mut vars = vars0.clone();
     let mut chk: Vec<SentMessage<F>> = olds.iter().enumerate().map(|(i, &v)| SentMessage { dest: 2 * i + 1, value: v }).collect();
+    if msgs.len() >= 3 {
+        // an unrelated (usually larger) row processed earlier by the same arithmetic object
+        let w = msgs.len().min(40);
+        let mut wv: Vec<F> = msgs[..w].to_vec();
+        let mut wc: Vec<SentMessage<F>> = (0..w).map(|i| SentMessage { dest: i, value: F::default() }).collect();
+        let _ = guarded(|| a.update_check_messages_and_vars(&mut wc, &mut wv));
+    }
     guarded(|| a.update_check_messages_and_vars(&mut chk, &mut vars)).map_err(|e| Fail::new("layered-panic", format!("{name}: update_check_messages_and_vars panicked: {e}")))?;
     // extrinsic values in the arithmetic's own precision (one rounding, as any implementation must do)
     let ext: Vec<F> = (0..d).map(|i| F::from64(vars0[2 * i + 1].to64() - olds[i].to64())).collect();
@@ -465,7 +480,7 @@ pub fn property() -> Property {
             }),
             Box::new(Sub {
                 name: "i8-rules",
-                rule: "the sixteen 8-bit types: (a) variable rule with degree 1..=200 (weighted 1 / 2-8 / 9-40 / 41-200), incoming messages in [-127,127] (uniform, all +127, all -127, mixed +-127, small), channel value incl. +-116/117/127, against exact i64 arithmetic with Jones clipping and degree-one clipping applied exactly where the type name says; (b) layered primitive on rows of degree 2..=12 whose variable LLRs are built as channel + sum of 1..=200 messages (reachable envelope by construction), against the type's own flooding check rule on the clipped extrinsics + add, other variables untouched; exact equality; non-trivial = a saturation/clipping branch taken (|total| > 127, degree-one clip, |extrinsic| > 127)",
+                rule: "the sixteen 8-bit types: (a) variable rule with degree 1..=200 (weighted 1 / 2-8 / 9-40 / 41-200), incoming messages in [-127,127] (uniform, all +127, all -127, mixed +-127, small), channel value incl. +-116/117/127, against exact i64 arithmetic with Jones clipping and degree-one clipping applied exactly where the type name says; (b) layered primitive on rows of degree 2..=12 (after an unrelated, usually larger row was processed by the same arithmetic object) whose variable LLRs are built as channel + sum of 1..=200 messages (reachable envelope by construction), against the type's own flooding check rule on the clipped extrinsics + add, other variables untouched; exact equality; non-trivial = a saturation/clipping branch taken (|total| > 127, degree-one clip, |extrinsic| > 127)",
                 cases: |t| t.pick(300_000, 10_000_000),
                 strategy: i8_strategy,
                 check: check_i8,
